@@ -156,7 +156,14 @@ def _child(case: Dict[str, Any]) -> Dict[str, Any]:
         out.update(error=f"{type(exc).__name__}: {exc}", stage="compute")
         return out
     for asset, cd in computed.items():
-        out["dumps"][asset] = xdump(C, cd)
+        try:
+            out["dumps"][asset] = xdump(C, cd)
+        except Exception as exc:  # pylint: disable=broad-except
+            # RP2's own accessors raised while the computed figures were read back: a result, not a harness failure
+            tb = traceback.extract_tb(exc.__traceback__)
+            where = next((f"{os.path.basename(fr.filename)}:{fr.name}" for fr in reversed(tb) if "/rp2/" in fr.filename), "?")
+            out.update(error=f"{type(exc).__name__} while reading the computed figures of {asset}: {str(exc)[:200]}", stage="read", where=where)
+            return out
     out_dir = tempfile.mkdtemp(prefix="gen-", dir=common.scratch())
     try:
         import gettext as _gt  # noqa: F401
